@@ -113,6 +113,20 @@ def correspond(run):
                           {"kind": "impl-input", "input": {"first_dump": "b=1.2345678901234567 m=2^64-1 a=19.876543210987654 q=2^64-2",
                                                            "second_dump": {"b_bits": c["b"], "m": c["m"], "a_bits": c["a"], "q": c["q"]}},
                            "observed": ow})
+        no = c.get("near_overwrite")
+        if no is not None:
+            bad_no = (not no["dumped"]) or no["class"] != 0 or not no["mq_same"]
+            for nm in ("a", "b"):
+                u = no.get(nm + "_ulps")
+                if u is None or u > 1 or (no[nm + "_digits"] <= 15 and u != 0):
+                    bad_no = True
+            if bad_no:
+                run.violation("dump-over-similar-file", "dump_json into a directory whose parameters.json holds the same m, q and floats %d ulp(s) away, then "
+                              "reload_json: class %s, b off by %s ulps (%d digits), a off by %s ulps (%d digits) from what was dumped last" % (
+                                  no["ulps_before"], no["class"], no.get("b_ulps"), no["b_digits"], no.get("a_ulps"), no["a_digits"]),
+                              {"kind": "impl-input", "input": {"second_dump": {"b_bits": c["b"], "m": c["m"], "a_bits": c["a"], "q": c["q"]},
+                                                               "first_dump": "same m, q; b + %d ulps, a - %d ulps" % (no["ulps_before"], no["ulps_before"])},
+                               "observed": no})
         if rt["class"] == 0:
             if not (rt["m_same"] and rt["q_same"]):
                 run.violation("roundtrip-int", "m or q changed by dump/reload", {"kind": "impl-input", "input": {"m": c["m"], "q": c["q"]}, "observed": rt})
